@@ -28,7 +28,7 @@ def worker_init():
     from experimaestro.scheduler.workspace import RunMode
     xobj.cprint = lambda *a, **k: None
     xobj.inspect = _CheapInspect()
-    d = tempfile.mkdtemp(prefix="vg", dir="/dev/shm" if os.path.isdir("/dev/shm") else None)
+    d = tempfile.mkdtemp(prefix="vg", dir=os.environ.get("VERIF_SCRATCH", "/dev/shm"))
     _STATE["dir"] = d
     xp = experiment(d, "g", run_mode=RunMode.DRY_RUN, port=-1)
     xp.__enter__()
